@@ -89,7 +89,9 @@ def main():
 
 def run_check(pid, P, tier, seed, work, t0, no_evidence):
     known = load_known()
-    rlimit = P.get("rlimit_thorough" if tier == "thorough" else "rlimit_quick")
+    # Verus' default resource limit is 10; the largest function (SuperMinHash::sketch) uses about 9 of it, so a harmless edit elsewhere in
+    # the unit could push it over (=> UNDECIDED).  40 leaves headroom; a proof that needs more than that is reported as undecided.
+    rlimit = P.get("rlimit_thorough" if tier == "thorough" else "rlimit_quick") or 40
     units = P.get("verus_units", [])
     results = []
     with concurrent.futures.ThreadPoolExecutor(max_workers=min(8, max(1, len(units)))) as ex:
